@@ -255,6 +255,27 @@ func byteMutate(g G, body []byte) []byte {
 	}
 }
 
+// choquetManyCriteria: a small, well-formed body with an extreme field - a Choquet request that declares 20 to 70
+// criteria and carries weights for the single criteria only (2^n - 1 are required). It must be answered (400), and
+// answering it must not take the memory of 2^n subsets.
+func choquetManyCriteria(g G) string {
+	n := []int{20, 24, 27, 30, 33, 40, 50, 62, 63, 64, 70}[g.Int(0, 10)]
+	crit := make([]interface{}, n)
+	vals, w := M{}, M{}
+	for i := 0; i < n; i++ {
+		id := fmt.Sprintf("c%d", i+1)
+		crit[i] = M{"id": id, "type": "gain"}
+		vals[id] = float64(i % 3)
+		w[id] = 0.5
+	}
+	if g.Bool() {
+		w = M{}
+	}
+	return string(mustJSON(M{"preferenceFunction": "choquetIntegral", "criteria": crit,
+		"knownAlternatives": []interface{}{M{"id": "a1", "criteria": vals}}, "choseToMake": []interface{}{"a1"},
+		"methodParameters": M{"weights": w}}))
+}
+
 func genC20(t *rapid.T) C20Case {
 	g := G{t}
 	o := GenOpts{MaxBiases: 3, ValueMode: -1, MaxAlts: 6, MaxCrit: 5, AllowProb: g.Chance(1, 4), AllowDisable: g.Chance(1, 4), Superfluous: true, BiasLikeIds: true}
@@ -278,6 +299,9 @@ func genC20(t *rapid.T) C20Case {
 		}
 		return C20Case{Kind: "type", Body: string(mustJSON(m)), Mutant: what}
 	case 8:
+		if g.Chance(1, 3) {
+			return C20Case{Kind: "bytes", Body: choquetManyCriteria(g), Mutant: "choquetManyCriteria"}
+		}
 		return C20Case{Kind: "bytes", Body: hostileBodies[g.Int(0, len(hostileBodies)-1)]}
 	default:
 		return C20Case{Kind: "bytes", Body: string(byteMutate(g, mustJSON(genRequest(t, o).Req)))}
